@@ -63,23 +63,25 @@ theorem parse_render_ogmios_v5 (u : UTxOModel) (hw : WellFormed u) (hd : bytesPa
   simp [parse_ogmios_v5, render_ogmios_v5, v5Pair, J.field, J.lookup, J.getN, J.getD, ht, hv, hh, J.asStr, hsc, hdt]
   simp [dotValue, J.lookup]
 
-/-- Ogmios v6: `{"ada": {"lovelace": c}, policy: {name: q}}`, optional `datumHash` / `datum` / `script`
-(Plutus v1–v3). -/
-theorem parse_render_ogmios_v6 (u : UTxOModel) (hw : WellFormed u) (hd : bytesPayload u.datum = true)
-    (hs : scriptOK [1, 2, 3] u.script = true) : parse_ogmios_v6 (render_ogmios_v6 u) = .ok u := by
+/-- Ogmios v6: `{"ada": {"lovelace": c}, policy: {name: q}}`, optional `datumHash` / `datum` / `script`; every
+script language the service reports: Plutus v1–v3 (`{"language": "plutus:vN", "cbor"}`) and native scripts
+(`{"language": "native", "json", "cbor"}`, language `0`, carried as the reported CBOR whatever JSON notation
+`aux.nativeJson` accompanies it). -/
+theorem parse_render_ogmios_v6 (aux : Aux) (u : UTxOModel) (hw : WellFormed u) (hd : bytesPayload u.datum = true)
+    (hs : scriptBytesOK [0, 1, 2, 3] u.script = true) : parse_ogmios_v6 (render_ogmios_v6 aux u) = .ok u := by
   have hv := v6Value_render u hw
   have ht := txIn_render u.txId u.index hw.1
   have hdt := v6Datum_render u.datum u.datumHash hd hw.2.2.2.2.2.2
   have hh := hashIfTruthy_optStr u.datumHash hw.2.2.2.2.2.1
-  have hsc := v6Script_opt u.script hs
+  have hsc := v6Script_opt aux u.script hs
   simp [parse_ogmios_v6, render_ogmios_v6, J.getN, J.getD, J.lookup, lookup_append, lookup_optMember, ht, hv,
     J.asStr, optStr_eq, hdt, hh, hsc]
   simp [v6ValueJ, J.lookup]
 
 /-- cardano-cli: `"txid#ix"` key, `{"lovelace": c, policy: {name: q}}`, `datumhash`, inline datum as JSON next to
-`inlineDatumhash`, Plutus v1/v2 reference script envelope. -/
+`inlineDatumhash`, Plutus v1–v3 reference script envelope (`PlutusScriptV1` / `PlutusScriptV2` / `PlutusScriptV3`). -/
 theorem parse_render_cardano_cli (aux : Aux) (u : UTxOModel) (hw : WellFormed u) (hd : jsonPayload u.datum = true)
-    (hs : scriptOK [1, 2] u.script = true) (ha : aux.inlineHash.length = 32) :
+    (hs : scriptOK [1, 2, 3] u.script = true) (ha : aux.inlineHash.length = 32) :
     parse_cardano_cli (render_cardano_cli aux u).1 (render_cardano_cli aux u).2 = .ok u := by
   have ht := cliTxIn_render u hw.1
   have hv := cliOuter_policies u.ma (.num u.coin) (.num 0, []) hw.sizes
@@ -132,11 +134,14 @@ theorem parse_render_kupo_no_inline (aux : Aux) (u : UTxOModel) (hw : WellFormed
     cases dh <;> simp [kupoImage, shownHash]
   rw [this]
 
-/-- a whole Ogmios response (any number of UTxOs): the same UTxOs, in the same order, none dropped or merged -/
-theorem ogmios_v6_response (us : List UTxOModel)
-    (h : ∀ u ∈ us, WellFormed u ∧ bytesPayload u.datum = true ∧ scriptOK [1, 2, 3] u.script = true) :
-    parseList parse_ogmios_v6 (us.map render_ogmios_v6) = .ok us :=
-  parseList_map _ _ us fun u hu => parse_render_ogmios_v6 u (h u hu).1 (h u hu).2.1 (h u hu).2.2
+/-- a whole Ogmios response (any number of UTxOs, each with what the service shows besides it — a native script's
+JSON notation differs from entry to entry): the same UTxOs, in the same order, none dropped or merged; native and
+Plutus v1–v3 reference scripts carried over -/
+theorem ogmios_v6_response (us : List (Aux × UTxOModel))
+    (h : ∀ au ∈ us, WellFormed au.2 ∧ bytesPayload au.2.datum = true ∧
+      scriptBytesOK [0, 1, 2, 3] au.2.script = true) :
+    parseList parse_ogmios_v6 (us.map fun au => render_ogmios_v6 au.1 au.2) = .ok (us.map fun au => au.2) :=
+  parseList_map' _ _ _ us fun au hu => parse_render_ogmios_v6 au.1 au.2 (h au hu).1 (h au hu).2.1 (h au hu).2.2
 
 theorem ogmios_v5_response (us : List UTxOModel)
     (h : ∀ u ∈ us, WellFormed u ∧ bytesPayload u.datum = true ∧ scriptOK [1, 2] u.script = true) :
@@ -154,12 +159,13 @@ theorem ogmios_v5_faithful (u : UTxOModel) (hw : WellFormed u) (hd : bytesPayloa
     (hs : scriptOK [1, 2] u.script = true) : ∃ u', parse_ogmios_v5 (render_ogmios_v5 u) = .ok u' ∧ Same u' u :=
   ⟨u, parse_render_ogmios_v5 u hw hd hs, Same.refl u⟩
 
-theorem ogmios_v6_faithful (u : UTxOModel) (hw : WellFormed u) (hd : bytesPayload u.datum = true)
-    (hs : scriptOK [1, 2, 3] u.script = true) : ∃ u', parse_ogmios_v6 (render_ogmios_v6 u) = .ok u' ∧ Same u' u :=
-  ⟨u, parse_render_ogmios_v6 u hw hd hs, Same.refl u⟩
+theorem ogmios_v6_faithful (aux : Aux) (u : UTxOModel) (hw : WellFormed u) (hd : bytesPayload u.datum = true)
+    (hs : scriptBytesOK [0, 1, 2, 3] u.script = true) :
+    ∃ u', parse_ogmios_v6 (render_ogmios_v6 aux u) = .ok u' ∧ Same u' u :=
+  ⟨u, parse_render_ogmios_v6 aux u hw hd hs, Same.refl u⟩
 
 theorem cardano_cli_faithful (aux : Aux) (u : UTxOModel) (hw : WellFormed u) (hd : jsonPayload u.datum = true)
-    (hs : scriptOK [1, 2] u.script = true) (ha : aux.inlineHash.length = 32) :
+    (hs : scriptOK [1, 2, 3] u.script = true) (ha : aux.inlineHash.length = 32) :
     ∃ u', parse_cardano_cli (render_cardano_cli aux u).1 (render_cardano_cli aux u).2 = .ok u' ∧ Same u' u :=
   ⟨u, parse_render_cardano_cli aux u hw hd hs ha, Same.refl u⟩
 
@@ -206,49 +212,62 @@ theorem dot_assets_any_order (es : List (Bytes × Bytes × Int))
 theorem dotSplit_spec (p n : Bytes) (hp : p.length = 28) (hn : n.length ≤ 32) :
     extractAssetInfo (dotKey p n) = .ok (p, n) := extractAssetInfo_dotKey p n hp hn
 
-/-! ## where the full statement fails on the code as it is (recorded findings)
+/-! ## the two repaired adapters: reference scripts that used to fail the whole address query
 
-`parse_render_ogmios_v6` and `parse_render_cardano_cli` above are the proved parts (`scriptOK [1, 2, 3]` resp.
-`scriptOK [1, 2]` explicit).  With every reference-script language the service can report, the statements are
-false: the Ogmios v6 path raises `ValueError` on a native script, the cardano-cli path hands a Plutus v3 text
-envelope to `NativeScript.from_dict` (`KeyError`). -/
+Before the repairs (`fix: restore PlutusV3 reference scripts in the cardano-cli chain context`, `fix: carry native
+reference scripts over in the Ogmios v6 chain context`) the Ogmios v6 path raised `ValueError` on a native script
+and the cardano-cli path handed a Plutus v3 text envelope to `NativeScript.from_dict` (`KeyError`); the statements
+below were recorded as counterexamples then.  They now hold for every UTxO. -/
 
-/-- an ADA-only UTxO carrying a native reference script -/
+/-- Ogmios v6, a native reference script (reported as `{"language": "native", "json": …, "cbor": …}`): the UTxO is
+returned with every observable as reported and exactly that script, whatever JSON notation accompanies the CBOR. -/
+theorem ogmios_v6_native_script_carried (aux : Aux) (u : UTxOModel) (hw : WellFormed u)
+    (hd : bytesPayload u.datum = true) (b : Bytes) (hs : u.script = some ⟨0, .bytes b⟩) :
+    ∃ u', parse_ogmios_v6 (render_ogmios_v6 aux u) = .ok u' ∧ Same u' u ∧ u'.script = some ⟨0, .bytes b⟩ :=
+  ⟨u, parse_render_ogmios_v6 aux u hw hd (by simp [hs, scriptBytesOK]), Same.refl u, hs⟩
+
+/-- cardano-cli, a Plutus v3 reference script (text envelope `"type": "PlutusScriptV3"`): the UTxO is returned with
+every observable as reported and exactly that script. -/
+theorem cardano_cli_plutus_v3_script_carried (aux : Aux) (u : UTxOModel) (hw : WellFormed u)
+    (hd : jsonPayload u.datum = true) (ha : aux.inlineHash.length = 32) (b : Bytes)
+    (hs : u.script = some ⟨3, .bytes b⟩) :
+    ∃ u', parse_cardano_cli (render_cardano_cli aux u).1 (render_cardano_cli aux u).2 = .ok u' ∧ Same u' u ∧
+      u'.script = some ⟨3, .bytes b⟩ :=
+  ⟨u, parse_render_cardano_cli aux u hw hd (by simp [hs, scriptOK]) ha, Same.refl u, hs⟩
+
+/-- the languages the Ogmios v6 path has no branch for are still refused (`ValueError`), not mistaken for a native
+or a Plutus script -/
+theorem ogmios_v6_unknown_language_refused (lang : String) (rest : List (String × J))
+    (h1 : startsPlutusV lang = false) (h2 : lang ≠ "native") :
+    v6Script (.obj (("language", .str lang) :: rest)) = .error .value := by
+  simp [v6Script, J.truthy, J.field, J.lookup, J.asStr, h1, h2]
+
+/-- an ADA-only UTxO carrying a native reference script: `ScriptPubkey` of the key hash `33…33`, as CBOR
+`82 00 58 1c 33…33` (the witness of the former finding KF-C20-ogmios6-native-refscript) -/
 def nativeWitness : UTxOModel :=
   { txId := List.replicate 32 0xab, index := 0, address := "addr_test1vqqszqgp", coin := 2000000, ma := [],
     datumHash := none, datum := none,
-    script := some ⟨0, .json (.obj [("type", .str "sig"), ("keyHash", .str "33")])⟩ }
+    script := some ⟨0, .bytes ([0x82, 0x00, 0x58, 0x1c] ++ List.replicate 28 0x33)⟩ }
 
-/-- an ADA-only UTxO carrying a Plutus v3 reference script -/
+/-- what Ogmios shows besides `nativeWitness`: the script in its own notation -/
+def nativeAux : Aux :=
+  { inlineHash := List.replicate 32 0, scriptHash := List.replicate 28 0,
+    nativeJson := .obj [("clause", .str "signature"), ("from", .str (hexStr (List.replicate 28 0x33)))] }
+
+/-- an ADA-only UTxO carrying a Plutus v3 reference script (the witness of the former finding
+KF-C20-cli-plutusv3-refscript) -/
 def v3Witness : UTxOModel :=
   { txId := List.replicate 32 0xab, index := 0, address := "addr_test1vqqszqgp", coin := 2000000, ma := [],
     datumHash := none, datum := none, script := some ⟨3, .bytes [0x46, 1, 0, 0, 0x22, 0x24, 0x99]⟩ }
 
-def parse_render_ogmios_v6_goal : Prop :=
-  ∀ u : UTxOModel, WellFormed u → bytesPayload u.datum = true → scriptOK [0, 1, 2, 3] u.script = true →
-    parse_ogmios_v6 (render_ogmios_v6 u) = .ok u
+example : parse_ogmios_v6 (render_ogmios_v6 nativeAux nativeWitness) = .ok nativeWitness :=
+  parse_render_ogmios_v6 nativeAux nativeWitness (by decide) (by decide) (by decide)
 
-theorem parse_render_ogmios_v6_counterexample : ¬ parse_render_ogmios_v6_goal := by
-  intro h
-  have h1 := h nativeWitness (by decide) (by decide) (by decide)
-  have h2 : parse_ogmios_v6 (render_ogmios_v6 nativeWitness) = .error .value := by rfl
-  rw [h2] at h1
-  cases h1
+example : parse_cardano_cli (render_cardano_cli nativeAux v3Witness).1 (render_cardano_cli nativeAux v3Witness).2
+    = .ok v3Witness :=
+  parse_render_cardano_cli nativeAux v3Witness (by decide) (by decide) (by decide) (by decide)
 
-def parse_render_cardano_cli_goal : Prop :=
-  ∀ (aux : Aux) (u : UTxOModel), WellFormed u → jsonPayload u.datum = true → scriptOK [1, 2, 3] u.script = true →
-    aux.inlineHash.length = 32 →
-    parse_cardano_cli (render_cardano_cli aux u).1 (render_cardano_cli aux u).2 = .ok u
-
-theorem parse_render_cardano_cli_counterexample : ¬ parse_render_cardano_cli_goal := by
-  intro h
-  have h1 := h ⟨List.replicate 32 0, List.replicate 28 0⟩ v3Witness (by decide) (by decide) (by decide) (by decide)
-  have h2 : parse_cardano_cli (render_cardano_cli ⟨List.replicate 32 0, List.replicate 28 0⟩ v3Witness).1
-      (render_cardano_cli ⟨List.replicate 32 0, List.replicate 28 0⟩ v3Witness).2 = .error .key := by
-    simp only [parse_cardano_cli, render_cardano_cli, cliTxIn_render v3Witness (by decide), ok_bind]
-    rfl
-  rw [h2] at h1
-  cases h1
+/-! ## where the full statement fails on the code as it is (recorded finding) -/
 
 /-- Kupo lists an inline datum by its hash with `datum_type = "inline"`; the adapter does not consult
 `datum_type`, so the UTxO it returns carries the inline datum AND that hash as `datum_hash`, which the reported
@@ -281,8 +300,8 @@ def sample : UTxOModel :=
 
 example : WellFormed sample := by decide
 
-example : parse_ogmios_v6 (render_ogmios_v6 sample) = .ok sample :=
-  parse_render_ogmios_v6 sample (by decide) (by decide) (by decide)
+example : parse_ogmios_v6 (render_ogmios_v6 nativeAux sample) = .ok sample :=
+  parse_render_ogmios_v6 nativeAux sample (by decide) (by decide) (by decide)
 
 example : MultiAsset.qty sample.ma (List.replicate 28 1) [] = 7 ∧
     MultiAsset.qty sample.ma (List.replicate 28 1) [0x61, 0x62] = 9223372036854775808 ∧
@@ -309,6 +328,7 @@ end Pyc.C20
 #print axioms Pyc.C20.Same.refl
 #print axioms Pyc.C20.ogmios_v6_response
 #print axioms Pyc.C20.ogmios_v5_response
-#print axioms Pyc.C20.parse_render_ogmios_v6_counterexample
-#print axioms Pyc.C20.parse_render_cardano_cli_counterexample
+#print axioms Pyc.C20.ogmios_v6_native_script_carried
+#print axioms Pyc.C20.cardano_cli_plutus_v3_script_carried
+#print axioms Pyc.C20.ogmios_v6_unknown_language_refused
 #print axioms Pyc.C20.kupo_inline_datum_gets_datum_hash
